@@ -16,7 +16,7 @@ DEFAULT = dict(
     tag=st.sampled_from(["@a", "@b", "@c", "@a", "@<a>", "@x<b>y", "@"]),
     ktype=st.sampled_from(KEYWORD_TYPES),
     max_scenarios=3, max_rules=3, max_steps=3, max_examples=3, max_rows=3, max_cols=3, max_tags=3,
-    p_shared_tag=0.12, p_shared_node=0.1, p_any_order=0.25, p_bg=0.6, p_rule_bg=0.5, p_arg=0.4, p_outline=0.45, p_header=0.8,
+    p_ragged=0.06, p_scrambled_locations=0.3, p_shared_tag=0.12, p_shared_node=0.1, p_any_order=0.25, p_bg=0.6, p_rule_bg=0.5, p_arg=0.4, p_outline=0.45, p_header=0.8,
     language=st.sampled_from(["en", "fr", "en-pirate"]),
     uri=st.sampled_from(["u.feature", "dir/x y.feature", "", "./features/a.feature", "../up.feature", "/abs/path.feature", "C:\\dir\\w.feature", "file:///x.feature",
                          " spaced .feature ", "ünï/ç.feature", "./", "a/./b/../c.feature"]),
@@ -41,13 +41,18 @@ def st_ast(draw, **over):
     cfg = dict(DEFAULT)
     cfg.update(over)
     gid = _Ids()
+    scramble = cfg.get("p_scrambled_locations") and draw(st.floats(0, 1, allow_nan=False)) < cfg["p_scrambled_locations"]
+
+    def loc():
+        # edited / merged ASTs: locations need not increase in document order (they play no part in compiling)
+        return {"line": draw(st.integers(1, 12)), "column": draw(st.integers(1, 12))} if scramble else dict(LOC)
     prob = lambda p: draw(st.floats(0, 1, allow_nan=False)) < p
     count = lambda hi, lo=0: draw(st.integers(lo, hi))
 
     seen_tags = []
 
     def tags():
-        return [{"id": None, "location": dict(LOC), "name": draw(cfg["tag"])} for _ in range(count(cfg["max_tags"]))]
+        return [{"id": None, "location": loc(), "name": draw(cfg["tag"])} for _ in range(count(cfg["max_tags"]))]
 
     def fix_tags(ts):
         for t in ts:
@@ -59,21 +64,28 @@ def st_ast(draw, **over):
         return ts
 
     def row(width, values=None):
-        return {"id": gid(), "location": dict(LOC),
-                "cells": [{"location": dict(LOC), "value": (values[i] if values else draw(cfg["cell"]))}
+        return {"id": gid(), "location": loc(),
+                "cells": [{"location": loc(), "value": (values[i] if values else draw(cfg["cell"]))}
                           for i in range(width)]}
 
     def step():
         kt = draw(cfg["ktype"])
-        s = {"id": None, "location": dict(LOC), "keyword": KW_FOR_TYPE[kt], "keywordType": kt,
+        s = {"id": None, "location": loc(), "keyword": KW_FOR_TYPE[kt], "keywordType": kt,
              "text": draw(cfg["step_text"])}
         if prob(cfg["p_arg"]):
             if draw(st.booleans()):
                 w = count(cfg["max_cols"], 1) if draw(st.integers(0, 11)) else 0
                 rows = [row(w) for _ in range(count(3, 1))]
-                s["dataTable"] = {"location": dict(LOC), "rows": rows}
+                if cfg.get("p_ragged") and prob(cfg["p_ragged"]):
+                    # a table edited after parsing: one row got an extra cell / lost one (each row is still copied cell by cell)
+                    r_ = rows[count(len(rows) - 1)]
+                    if draw(st.booleans()) or not r_["cells"]:
+                        r_["cells"].append({"location": loc(), "value": draw(cfg["cell"])})
+                    else:
+                        r_["cells"].pop()
+                s["dataTable"] = {"location": loc(), "rows": rows}
             else:
-                ds = {"location": dict(LOC), "content": draw(cfg["content"]), "delimiter": draw(st.sampled_from(['"""', "```"]))}
+                ds = {"location": loc(), "content": draw(cfg["content"]), "delimiter": draw(st.sampled_from(['"""', "```"]))}
                 if draw(st.booleans()):
                     ds["mediaType"] = draw(cfg["media"])
                 s["docString"] = ds
@@ -84,11 +96,11 @@ def st_ast(draw, **over):
         if not prob(p):
             return []
         steps = [step() for _ in range(count(cfg["max_steps"]))]
-        return [{"background": {"id": gid(), "location": dict(LOC), "keyword": "Background", "name": "",
+        return [{"background": {"id": gid(), "location": loc(), "keyword": "Background", "name": "",
                                 "description": "", "steps": steps}}]
 
     def examples():
-        e = {"id": None, "tags": None, "location": dict(LOC), "keyword": "Examples", "name": draw(cfg["name"]),
+        e = {"id": None, "tags": None, "location": loc(), "keyword": "Examples", "name": draw(cfg["name"]),
              "description": "", "tableBody": []}
         if prob(cfg["p_header"]):
             w = count(cfg["max_cols"], 1) if draw(st.integers(0, 11)) else 0  # a lone '|' is a header with no cells
@@ -112,14 +124,14 @@ def st_ast(draw, **over):
         seen_steps.extend(steps)
         exs = [examples() for _ in range(count(cfg["max_examples"], 1))] if prob(cfg["p_outline"]) else []
         ts = fix_tags(tags())
-        return {"scenario": {"id": gid(), "tags": ts, "location": dict(LOC),
+        return {"scenario": {"id": gid(), "tags": ts, "location": loc(),
                              "keyword": "Scenario Outline" if exs else "Scenario", "name": draw(cfg["name"]),
                              "description": "", "steps": steps, "examples": exs}}
 
     def rule():
         ch = background(cfg["p_rule_bg"]) + [scenario() for _ in range(count(cfg["max_scenarios"]))]
         ts = fix_tags(tags())
-        return {"rule": {"id": gid(), "tags": ts, "location": dict(LOC), "keyword": "Rule", "name": "r",
+        return {"rule": {"id": gid(), "tags": ts, "location": loc(), "keyword": "Rule", "name": "r",
                          "description": "", "children": ch}}
 
     doc = {"comments": [], "uri": draw(cfg["uri"])}
@@ -129,7 +141,7 @@ def st_ast(draw, **over):
             # merged / re-ordered documents: scenarios and rules in any arrangement (the parser itself puts scenarios first)
             rest = draw(st.permutations(rest))
         ch = background(cfg["p_bg"]) + list(rest)
-        doc["feature"] = {"tags": fix_tags(tags()), "location": dict(LOC), "language": draw(cfg["language"]),
+        doc["feature"] = {"tags": fix_tags(tags()), "location": loc(), "language": draw(cfg["language"]),
                           "keyword": "Feature", "name": "f", "description": "", "children": ch}
     return {"doc": doc, "next_id": gid.n}
 
